@@ -54,6 +54,19 @@ Theorem C18_truncation_bound :
 Proof. exact sdiff_bound. Qed.
 Print Assumptions C18_truncation_bound.
 
+(** the link to the networks: a power-law flux  prod_a env(a)^(n_a)  as a function of ONE argument x
+    (variable or parameter, repeated occurrences add up; env' = env with x replaced by v) is
+    c * v^(order_of x)  with c = the product of the other factors, independent of v -- so each cell
+    the routines compute for a power-law network is an instance of C18_coefficient_power_law with
+    n = the kinetic order *)
+Theorem C18_power_law_flux_is_monomial :
+  forall (x : name) (env env' : name -> option Q) (v : Q) (fs : plrxn) (P : Q),
+    (forall a, env' a = if N.eqb a x then Some v else env a) ->
+    prod_factors env fs = Some P ->
+    exists P', prod_factors env' fs = Some P' /\ P' == others x env fs * qpow v (order_of x fs).
+Proof. exact prod_factors_monomial. Qed.
+Print Assumptions C18_power_law_flux_is_monomial.
+
 (** with the displacement defaults extracted from the source: [n, n + 2^n * 1e-8] *)
 Theorem C18_default_displacement_bound :
   forall (d : Q) (n : nat), In d (f_disp gen_mca_facts) ->
